@@ -451,3 +451,211 @@ pub fn ban_list_snapshot() -> crate::PermitBanList {
 pub fn ban_list_reset() {
     *crate::discv5::PERMIT_BAN_LIST.write() = crate::PermitBanList::default();
 }
+
+/// Replaces the process-global permit/ban list.
+pub fn ban_list_set(list: crate::PermitBanList) {
+    *crate::discv5::PERMIT_BAN_LIST.write() = list;
+}
+
+// ------------------------------------------------------------------------------------------
+// Inbound packet filter and its rate limiter (H5/H6): facades over the crate-private
+// `socket::filter::{Filter, rate_limiter::Limiter}`.
+// ------------------------------------------------------------------------------------------
+
+/// What `Limiter::allows` answered.
+#[derive(Debug, Clone, PartialEq, Eq)]
+pub enum LimiterVerdict {
+    Ok,
+    /// The batch can never be accepted.
+    TooLarge,
+    /// Refused; could be accepted after this long.
+    TooSoon(Duration),
+}
+
+/// Facade over the GCRA limiter `Limiter<u64>` (explicit time = time since the limiter's start).
+pub struct LimiterFacade(crate::socket::VerifLimiter<u64>);
+
+impl LimiterFacade {
+    /// `Limiter::from_quota` for `max_tokens` every `replenish_all_every`.
+    pub fn new(max_tokens: u64, replenish_all_every: Duration) -> Result<Self, &'static str> {
+        crate::socket::VerifLimiter::verif_new(max_tokens, replenish_all_every)
+            .map(LimiterFacade)
+    }
+
+    pub fn allows(&mut self, time_since_start: Duration, key: u64, tokens: u64) -> LimiterVerdict {
+        use crate::socket::VerifRateLimitedErr as RateLimitedErr;
+        match self.0.allows(time_since_start, &key, tokens) {
+            Ok(()) => LimiterVerdict::Ok,
+            Err(RateLimitedErr::TooLarge) => LimiterVerdict::TooLarge,
+            Err(RateLimitedErr::TooSoon(d)) => LimiterVerdict::TooSoon(d),
+        }
+    }
+
+    pub fn prune(&mut self, time_limit: Duration) {
+        self.0.prune(time_limit)
+    }
+
+    /// The stored keys with their theoretical arrival time in nanoseconds, sorted by key.
+    pub fn tats(&self) -> Vec<(u64, u64)> {
+        let mut v = self.0.verif_tats();
+        v.sort();
+        v
+    }
+}
+
+/// The limiter state of a `FilterFacade`: virtual time since creation and the stored theoretical
+/// arrival times (nanoseconds since creation); `None` = that limiter is not configured.
+#[derive(Debug, Clone, Default)]
+pub struct FilterLimiterState {
+    pub elapsed: Duration,
+    pub total: Vec<u64>,
+    pub ip: Option<Vec<(std::net::IpAddr, u64)>>,
+    pub node: Option<Vec<(NodeId, u64)>>,
+}
+
+/// The inbound packet filter `socket::filter::Filter` (crate-private), borrowed.
+pub struct FilterRef<'a>(&'a mut crate::socket::VerifFilter);
+
+impl FilterRef<'_> {
+    /// `Filter::initial_pass`: the first (IP) stage.
+    pub fn initial_pass(&mut self, src: &SocketAddr) -> bool {
+        self.0.initial_pass(src)
+    }
+
+    /// `Filter::final_pass`: the second (node id) stage; the packet is a random-data message
+    /// packet from that node (the filter does not look at it).
+    pub fn final_pass(&mut self, node_address: &NodeAddress) -> bool {
+        let packet = Packet::new_random(&node_address.node_id, ProtocolIdentity::default())
+            .expect("random packet");
+        self.0.final_pass(node_address, &packet)
+    }
+
+    /// `Filter::prune_limiter` (called every 30 s by the receive task).
+    pub fn prune_limiter(&mut self) {
+        self.0.prune_limiter()
+    }
+
+    /// Lets `d` of virtual time pass for the rate limiter.
+    pub fn age(&mut self, d: Duration) {
+        if let Some(rl) = self.0.verif_rate_limiter() {
+            rl.verif_age(d)
+        }
+    }
+
+    /// The rate limiter's clock and stored arrival times (`None`: no rate limiter configured).
+    pub fn limiter_state(&mut self) -> Option<FilterLimiterState> {
+        self.0.verif_rate_limiter().map(|rl| {
+            let (elapsed, total, ip, node) = rl.verif_state();
+            FilterLimiterState {
+                elapsed,
+                total: total.into_iter().map(|(_, t)| t).collect(),
+                ip,
+                node,
+            }
+        })
+    }
+
+    /// The node ids seen per IP (`max_nodes_per_ip`) and the banned-node counters per IP
+    /// (`max_bans_per_ip`).
+    #[allow(clippy::type_complexity)]
+    pub fn tracking(&self) -> (Vec<(std::net::IpAddr, Vec<NodeId>)>, Vec<(std::net::IpAddr, usize)>) {
+        self.0.verif_tracking()
+    }
+}
+
+/// Facade over the inbound packet filter `socket::filter::Filter`, owned.
+pub struct FilterFacade(crate::socket::VerifFilter);
+
+impl FilterFacade {
+    /// `Filter::new(config, ban_duration)`.
+    pub fn new(config: crate::socket::FilterConfig, ban_duration: Option<Duration>) -> Self {
+        FilterFacade(crate::socket::VerifFilter::new(config, ban_duration))
+    }
+
+    pub fn filter(&mut self) -> FilterRef<'_> {
+        FilterRef(&mut self.0)
+    }
+}
+
+/// What the receive handler did with a datagram.
+#[derive(Debug, Clone, PartialEq, Eq)]
+pub enum RecvOutcome {
+    /// Nothing reached the packet handler.
+    Dropped,
+    /// The decoded packet was forwarded (with the source id it names, if any).
+    Inbound(Option<NodeId>),
+    /// The undecodable datagram was forwarded as an unrecognized frame.
+    Unrecognized,
+}
+
+/// Facade over the receive task's `RecvHandler`: the real `handle_inbound` (expected-response
+/// exemption, `Filter::initial_pass`, `Packet::decode`, `Filter::final_pass`, forwarding) fed with
+/// datagrams by the caller instead of by a UDP socket. The handler owns a loopback socket that is
+/// never read.
+pub struct RecvFacade {
+    handler: crate::socket::recv::RecvHandler,
+    out: mpsc::Receiver<RecvPacket>,
+    expected: Arc<RwLock<HashMap<SocketAddr, usize>>>,
+    _exit: oneshot::Sender<()>,
+}
+
+impl RecvFacade {
+    /// Must be called inside a tokio runtime with I/O enabled.
+    pub fn new(
+        config: crate::socket::FilterConfig,
+        ban_duration: Option<Duration>,
+        local_node_id: NodeId,
+    ) -> std::io::Result<Self> {
+        let socket = std::net::UdpSocket::bind("127.0.0.1:0")?;
+        socket.set_nonblocking(true)?;
+        let socket = Arc::new(tokio::net::UdpSocket::from_std(socket)?);
+        let expected = Arc::new(RwLock::new(HashMap::new()));
+        let (handler, out, _exit) = crate::socket::recv::RecvHandler::verif_new(
+            socket,
+            config,
+            ban_duration,
+            local_node_id,
+            expected.clone(),
+        );
+        Ok(RecvFacade {
+            handler,
+            out,
+            expected,
+            _exit,
+        })
+    }
+
+    /// `RecvHandler::handle_inbound(src, datagram)`; returns what was forwarded to the handler.
+    pub async fn inbound(&mut self, src: SocketAddr, datagram: &[u8]) -> RecvOutcome {
+        self.handler.verif_handle_inbound(src, datagram).await;
+        match self.out.try_recv() {
+            Ok(RecvPacket::Inbound(p)) => RecvOutcome::Inbound(match p.header.kind {
+                PacketKind::Message { src_id } => Some(src_id),
+                PacketKind::Handshake { src_id, .. } => Some(src_id),
+                PacketKind::WhoAreYou { .. } => None,
+            }),
+            Ok(RecvPacket::UnrecognizedFrame(_)) => RecvOutcome::Unrecognized,
+            Err(_) => RecvOutcome::Dropped,
+        }
+    }
+
+    /// Sets the number of responses expected from `src` (the map shared with the handler, see
+    /// `Handler::add_expected_response`); 0 removes the entry.
+    pub fn expect(&self, src: SocketAddr, n: usize) {
+        if n == 0 {
+            self.expected.write().remove(&src);
+        } else {
+            self.expected.write().insert(src, n);
+        }
+    }
+
+    /// The sources a response is currently expected from.
+    pub fn expected_sources(&self) -> Vec<SocketAddr> {
+        self.expected.read().keys().copied().collect()
+    }
+
+    /// The filter of the receive handler (prune, virtual time, state read-out).
+    pub fn filter(&mut self) -> FilterRef<'_> {
+        FilterRef(self.handler.verif_filter())
+    }
+}
